@@ -390,7 +390,8 @@ SUITES = [RescueSuite(), CutoffSuite()]
 
 def suite_by_name(name):
     from .pipeline_common import PipelineSuite
-    return next(s for s in SUITES + [PipelineSuite()] if s.name == name)
+    from .results_common import RowsSuite
+    return next(s for s in SUITES + [PipelineSuite(), RowsSuite()] if s.name == name)
 
 
 def run(r: core.Runner):
@@ -430,6 +431,9 @@ def run(r: core.Runner):
         s.impl = real_impl
     r.traces = mon["n"]
     r.run_suite(SUITES[1])
+    # "placeholders are never reported": the row builder on rankings that contain OBSOLETE__ placeholder groups, both keep-all settings
+    from .results_common import RowsSuite
+    r.run_suite(RowsSuite())
     # the rescue pass inside the whole inference function (cutoff taken from the first pass at the caller's threshold), rescue methods only
     from .pipeline_common import PipelineSuite
     r.run_suite(PipelineSuite(methods=["picked_protein_group", "classic_rescued_subset_grouping", "picked_protein_group_mq_input",
